@@ -211,8 +211,12 @@ func CreateAuthenticators(cfg AuthConfig) []Authenticator {
 		if len(cfg.HashedUsers) > 0 {
 			creds := HashedCredentials(cfg.HashedUsers)
 			auths = append(auths, NewUserPassAuthenticator(creds))
-		} else if len(cfg.Users) > 0 {
-			// Fall back to plaintext credentials (deprecated)
+		} else {
+			// Fall back to plaintext credentials (deprecated). This branch is
+			// also taken when no user has a usable password: the result is an
+			// authenticator that accepts nobody. Returning none at all would
+			// make NewServer/NewHandler fall back to NoAuthAuthenticator, i.e.
+			// an open proxy although authentication is enabled.
 			creds := StaticCredentials(cfg.Users)
 			auths = append(auths, NewUserPassAuthenticator(creds))
 		}
